@@ -182,8 +182,10 @@ def resolveInsts (g : GraphVal) : List Node → Resolved → Res Resolved
         | .panic s => .panic s
     | _ => resolveInsts g ns r
 
-/-- `resolve_imports`, second loop: explicit import nodes in toposort order (`unwrap`) -/
-def resolveExplicit (g : GraphVal) : List Nat → Agg → List (Str × Nat) → Res (Agg × List (Str × Nat))
+/-- `resolve_imports`, second loop: explicit import nodes in toposort order; a merge failure is
+    reported against the first instantiation that introduced an import on the same track -/
+def resolveExplicit (g : GraphVal) (first : List (Str × Nat)) :
+    List Nat → Agg → List (Str × Nat) → Res (Agg × List (Str × Nat))
   | [], a, ex => .ok (a, ex)
   | n :: ns, a, ex =>
     match g.node? n with
@@ -192,9 +194,11 @@ def resolveExplicit (g : GraphVal) : List Nat → Agg → List (Str × Nat) → 
       match nd.kind with
       | .import name =>
         match a.aggregate name nd.ty with
-        | none => .panic "explicit import merge unwrap"
-        | some a' => resolveExplicit g ns a' (ex ++ [(name, n)])
-      | _ => resolveExplicit g ns a ex
+        | none =>
+          let cands := (first.filter fun e => compat e.1 name).map (·.2)
+          .error (.mergeConflict name (cands.foldl Nat.min (cands.headD n)) n)
+        | some a' => resolveExplicit g first ns a' (ex ++ [(name, n)])
+      | _ => resolveExplicit g first ns a ex
 
 /-- `import_deps` at the top level: one instance import per not yet imported interface -/
 def importDeps : List Str → EncSt → EncSt
@@ -265,7 +269,7 @@ def encodeImports (g : GraphVal) (importNodes : List Nat) (st : EncSt) : Res Enc
   | .error e => .error e
   | .panic s => .panic s
   | .ok r =>
-    match resolveExplicit g importNodes r.agg [] with
+    match resolveExplicit g r.first importNodes r.agg [] with
     | .error e => .error e
     | .panic s => .panic s
     | .ok (agg, explicit) =>
